@@ -34,7 +34,7 @@ META = {
  "C09": ("exploration", "digest comparison of repeated compilations (in-process and across processes) + deep before/after snapshots of environment and program",
    "Program digests (bytecode, typed constants with sorted maps, locations) of repeated compilations must be equal in one process and across worker processes; deep snapshots (incl. spare slice capacity) of env, sample env and program before and after each run must be equal; a second run on an equal env returns an equal result.",
    "Across processes = several processes of one build on one machine.", "5/C09"),
- "C10": ("exploration", "trace-specification monitor on the Enter/Exit stream of ast.Walk vs a reflection-based enumeration of Node fields + patch-effect differential",
+ "C10": ("exploration", "trace-specification monitor on the Enter/Exit stream of ast.Walk vs a reflection-based enumeration of Node fields + patch-effect differentials (identifier, string-literal, operator-introducing and type-changing patches made in Enter or Exit)",
    "For every node kind x child slot x child kind (exhaustive depth 2) and random trees, the Enter/Exit stream must enter/exit every reachable node once, properly nested, children in field order, with the parent's slot address; replacements at every slot must show in the compiled program.",
    "Node kinds defined outside package ast are out of scope.", "5/C10"),
  "C11": ("exploration", "round-trip and differential monitoring of parser.Parse against a reference recursive-descent parser",
@@ -46,15 +46,15 @@ META = {
  "C13": ("fault_enumeration", "fault injection with known positions; monitor on every *file.Error",
    "One fault (unknown name, type mismatch, syntax fault, or one failing run-time operation) is injected at a known (line, column) into multi-line, multi-byte sources; the reported location must be exactly that; every error location must lie inside the source and the snippet must be the named line.",
    "Lexer-level error columns are pinned one past the rune by the repository tests; only in-source/snippet checks apply to them.", "5/C13"),
- "C14": ("exploration", "exhaustive kind x kind x operator table against the promotion model (reflect.Convert by family), boundary grid of values",
+ "C14": ("exploration", "exhaustive kind x kind x operator table against the promotion model (Go conversions by family), boundary grid of values, int/float literal pairs",
    "All 12x12 ordered kind pairs x 13 operators + unary minus, on a boundary grid and random values, typed and untyped compilation: result value and kind must equal the Go result after converting the lower-ranked operand, and the kind the checker reports.",
    "Values are a grid plus samples, not all 2^64 pairs.", "5/C14"),
- "C15": ("exploration", "differential monitoring across compilation modes (Eval, no Env, Env struct/pointer/map, AllowUndefinedVariables)",
+ "C15": ("exploration", "differential monitoring across compilation modes (Eval, no Env, Env struct/pointer/map, AllowUndefinedVariables) incl. environments over defined types and retyped call arguments",
    "Among the variants that compile and run successfully on an environment value all results must be canon-equal (numeric kind included).", "Variants that fail are not compared (the property says so).", "5/C15"),
  "C16": ("exploration", "model-based monitoring against Go's own resolution (reflect FieldByName/MethodByName) over run-time assembled environment types",
    "Environment types assembled with reflect.StructOf (embedding by value/pointer, shadowing, ambiguity, unexported fields) and handwritten types (methods, maps): accepted names must run and have the reported type; Go-resolvable exported members must be accepted; docgen must list exactly the accepted top-level names.",
    "Members promoted through unexported embedded structs are judged in the accept->run direction only.", "5/C16"),
- "C17": ("exploration", "differential monitoring of operator form vs explicit-call form incl. call logs; bad operator tables must be rejected",
+ "C17": ("exploration", "differential monitoring of operator form vs explicit-call form vs reference evaluation of the explicit form, incl. call logs; bad operator tables must be rejected",
    "The generator resolves each overload itself and prints the explicit-call form; both forms must compile and give equal results and identical call logs on every environment; ill-shaped tables must make Compile fail.",
    "Overload functions have no side effects beyond the log.", "5/C17"),
  "C18": ("exploration", "metamorphic monitoring of the builtin identities over generated arrays and predicates, nested closures",
